@@ -202,6 +202,20 @@ pub fn full_label_order(dense_order: &[usize], rng: &mut Rng) -> Vec<usize> {
     }
     full
 }
+/// deterministic variant (seeded by the map and the order), for code without a generator at hand
+pub fn full_label_order_det(dense_order: &[usize]) -> Vec<usize> {
+    let m = label_map().expect("HARNESS: full_label_order_det without a label map");
+    let mut r = Rng::for_case(crate::rng::hash_str(&format!("{:?}{:?}", m, dense_order)), "wide", "order", 0);
+    full_label_order(dense_order, &mut r)
+}
+/// a variable created at run time: dense variable map.len() gets `label`
+pub fn extend_label_map(label: usize) {
+    LABMAP.with(|x| {
+        if let Some(m) = x.borrow_mut().as_mut() {
+            m.push(label);
+        }
+    });
+}
 /// wide regimes: a weight table over every label: the dense variables' weights at their labels,
 /// `filler` everywhere else
 pub fn spread_weights<W: Clone>(w: &[W], filler: W) -> Vec<W> {
